@@ -435,6 +435,8 @@ class Engine:
                 return bits_to_f64(v) if k == "double" else bits_to_f32(v)
             if isinstance(v, SV):
                 if v.box is not None:
+                    if isinstance(v.box, tuple):
+                        raise Inconclusive("float view of a multi-cell integer register")
                     return v.box
                 sk = v.e.sort().kind()
                 if sk in (z3.Z3_REAL_SORT, z3.Z3_FLOATING_POINT_SORT):
@@ -471,8 +473,12 @@ class Engine:
                 a += 1
                 continue
             if not isinstance(v, int):
-                if isinstance(v, SV) and v.e is not None and v.e.sort().kind() == z3.Z3_BV_SORT and base == addr and sz > size:
+                if isinstance(v, SV) and v.box is None and v.e is not None and v.e.sort().kind() == z3.Z3_BV_SORT and base == addr and sz > size:
                     return self.reinterpret(SV(z3.Extract(size * 8 - 1, 0, v.e)), ty)
+                if ty.k == "int":
+                    tiled = self._tile_cells(st, addr, size)
+                    if tiled is not None:
+                        return SV(None, box=("multi", tiled))
                 raise Inconclusive("partial load of a symbolic cell at %#x" % addr)
             out.append((v >> (8 * (a - base))) & 0xFF)
             a += 1
@@ -486,6 +492,19 @@ class Engine:
         for i, b in enumerate(out):
             val |= b << (8 * i)
         return self.reinterpret(val, ty)
+
+    def _tile_cells(self, st, addr, size):
+        """cells exactly tiling [addr, addr+size) -> [(offset, value, size)] (an integer register that carries
+        several smaller symbolic cells, e.g. a Vector2f copied through an i64)"""
+        out = []
+        a = addr
+        while a < addr + size:
+            c = self.mem_get(st, a)
+            if c is None or a + c[1] > addr + size:
+                return None
+            out.append((a - addr, c[0], c[1]))
+            a += c[1]
+        return out
 
     def load_symptr(self, st, p, ty):
         base, sz = self.find_alloc(st, p.base)
@@ -538,6 +557,13 @@ class Engine:
             return
         size = ty.size
         mem = st.mem
+        if isinstance(v, SV) and v.box is not None and isinstance(v.box, tuple) and v.box[0] == "multi":
+            self._split_cells(st, addr, size)
+            for a in range(addr, addr + size):
+                mem.pop(a, None)
+            for off, cv, csz in v.box[1]:
+                mem[addr + off] = (cv, csz)
+            return
         old = self.mem_get(st, addr)
         if old is not None and old[1] != size:
             self._split_cells(st, addr, size)
